@@ -37,7 +37,7 @@ func init() {
 var c07Kinds = []string{
 	"panic-bind", "panic-search", "panic-modify", "panic-add", "panic-delete", "panic-extended",
 	"panic-starttls", "panic-unbind", "panic-default",
-	"reset-midframe", "truncated-fin", "malformed", "former-decode-panic", "stop-reading-then-reset",
+	"reset-midframe", "truncated-fin", "malformed", "former-decode-panic", "stop-reading-then-reset", "stalled-reader-held",
 }
 
 var c07Placements = []string{"alone", "after-requests", "siblings-running", "double", "pipelined-after"}
@@ -255,6 +255,46 @@ func c07Inject(c *Ctx, srv *Srv, cs c07Case, r *Rand) {
 		cl.Send(pick(r, inputs))
 		cl.C.SetReadDeadline(time.Now().Add(300 * time.Millisecond))
 		sber.ReadFrame(cl.br)
+	case cs.Kind == "stalled-reader-held":
+		// the client keeps the connection open but never reads: its handlers block in Write for as long as the harness
+		// holds it. While it is held, a fresh connection must be served (bounded progress, B = 10s, no timing verdict
+		// beyond that bound) - only then is the stalled client let go.
+		n := 3
+		if cs.Place == "double" || cs.Place == "siblings-running" {
+			n = 40
+		}
+		for i := 0; i < n; i++ {
+			cl.Send(c07Search(id+int64(i), "big"))
+		}
+		time.Sleep(150 * time.Millisecond)
+		done := make(chan error, 1)
+		go func() {
+			p, err := dialRaw(srv.Addr, nil)
+			if err != nil {
+				done <- err
+				return
+			}
+			defer p.Close()
+			p.Send(c07Search(9, "tag=4242"))
+			m, err := p.ReadMsg(patience)
+			if err == nil {
+				if e, perr := sber.AsEntry(m.Op); perr != nil || len(e.Attrs) != 1 || string(e.Attrs[0].Vals[0]) != c07Payload(4242) {
+					err = fmt.Errorf("wrong answer")
+				}
+			}
+			done <- err
+		}()
+		select {
+		case err := <-done:
+			if err != nil {
+				c.Violate("a connection opened while another client does not read its responses is not served", fmt.Sprintf("%s/%s: %v", cs.Kind, cs.Place, err), cs)
+			} else {
+				c.Count("probes_served_while_a_reader_is_stalled", 1)
+			}
+		case <-time.After(10 * time.Second):
+			c.Violate("a connection opened while another client does not read its responses is not served", fmt.Sprintf("%s/%s: no answer within 10s while the stalled client was held; it is served only after the stalled client lets go", cs.Kind, cs.Place), cs)
+		}
+		cl.Reset()
 	case cs.Kind == "stop-reading-then-reset":
 		cl.Send(c07Search(id, "big"))
 		time.Sleep(time.Duration(50+r.Intn(200)) * time.Millisecond)
